@@ -3,14 +3,14 @@ From Ivv Require Import MT.WorkMT MT.WorkMTBase MT.WorkMTSpec MT.WorkMTCs MT.Wor
 Import ListNotations.
 Local Open Scope Z_scope.
 
-Lemma W5_evo : forall s l s', (lock s = None -> todo s = []) -> W1b s -> HFX s -> W5 s ->
-  (match l with LEvO _ => True | _ => False end) ->
+Lemma W5_lock : forall s l s', (lock s = None -> todo s = []) -> W1b s -> HFX s -> W5 s ->
+  (match l with LLock _ => True | _ => False end) ->
   step s l = Some s' -> W5 s'.
 Proof.
   intros s l s' AT A1b HF I LL H.
   assert (O : own s' = own s) by (eapply own_step; eauto).
   destruct l; try contradiction; clear LL.
-  all: step_inv0 H.
+  all: step_inv H.
   all: try (bools; eapply W5_dispatch; eauto; fail).
   all: hold_facts; cs_facts.
   all: unfold W5, evwork_due in *.
@@ -63,6 +63,5 @@ Proof.
   all: try lia.
   all: try (timeout 5 tauto).
   all: try solve [timeout 10 intuition (try discriminate; try congruence; try lia; eauto)].
-  all: try (destruct I2 as [[[X | X] | [X | X]] | [(l1 & X) | [X | X]]]; eauto 8; fail).
   all: show.
 Admitted.
